@@ -89,9 +89,12 @@ class Molecule(BigSMILESbase):
                 raise RuntimeError(
                     f"System {stochastic_text} contains an opening '{' for a stochastic object, but no closing '}'."
                 )
-            # Find distribution extension
-            if end_pos < len(stochastic_text) and stochastic_text[end_pos] == "|":
-                end_pos = stochastic_text.find("|", end_pos + 2) + 1
+            # Find distribution extension (white space may separate it from the object)
+            dist_pos = end_pos
+            while dist_pos < len(stochastic_text) and stochastic_text[dist_pos] in " \t":
+                dist_pos += 1
+            if dist_pos < len(stochastic_text) and stochastic_text[dist_pos] == "|":
+                end_pos = stochastic_text.find("|", dist_pos + 2) + 1
             stochastic = Stochastic(stochastic_text[:end_pos], res_id_prefix + res_id_counter)
             res_id_counter += len(stochastic.residues)
             if pre_stochastic:
